@@ -111,6 +111,8 @@ pub enum MOp {
     ListDelim { prefix: Option<String> },
     /// One entry (or one absence) of a non-snapshot listing.
     Observe { key: u8 },
+    /// One common prefix (listed or not) of a non-snapshot delimiter listing.
+    ObservePrefix { q: String },
     Delete { key: u8 },
     Copy { from: u8, to: u8, create: bool },
     /// Under concurrency a copy is two steps (as on S3-class stores and as
@@ -147,6 +149,7 @@ pub enum MRes {
     List(Vec<Ent>),
     ListDelim { prefixes: Vec<String>, objects: Vec<Ent> },
     Obs(Option<Ent>),
+    PrefixListed(bool),
     Err(EK),
 }
 
@@ -510,6 +513,12 @@ impl Model for RefStore {
                 MRes::Obs(Some(ent)) => one(self.observe(st, *key, ent)),
                 _ => vec![],
             },
+            MOp::ObservePrefix { q } => {
+                let MRes::PrefixListed(listed) = res else { return vec![] };
+                let under = format!("{q}/");
+                let any = st.objs.keys().any(|k| KEYS[*k as usize].starts_with(&under));
+                if any == *listed { same() } else { vec![] }
+            }
             MOp::List { prefix, offset } => {
                 let MRes::List(ents) = res else { return vec![] };
                 let mut s = st.clone();
@@ -1010,6 +1019,40 @@ impl Exec {
                     }
                     Err(e) => MRes::Err(ek(&e)),
                 };
+                if let (true, MRes::ListDelim { prefixes, objects }) = (self.split_lists, &res) {
+                    // non-snapshot listing (the backend listing and the per-entry
+                    // resolution happen at different instants): one observation per
+                    // direct child and one per candidate common prefix
+                    let plen = p.as_ref().map(|p| p.len() + 1).unwrap_or(0);
+                    let mut children: Vec<u8> = Vec::new();
+                    let mut cands: BTreeSet<String> = BTreeSet::new();
+                    for (k, loc) in KEYS.iter().enumerate() {
+                        if !in_prefix(loc, &p) {
+                            continue;
+                        }
+                        match loc[plen..].find('/') {
+                            None => children.push(k as u8),
+                            Some(i) => {
+                                cands.insert(loc[..plen + i].to_string());
+                            }
+                        }
+                    }
+                    let mut seen = BTreeSet::new();
+                    let well_formed = objects.iter().all(|e| seen.insert(e.loc.clone()) && children.iter().any(|k| KEYS[*k as usize] == e.loc))
+                        && prefixes.iter().all(|q| cands.contains(q))
+                        && prefixes.iter().collect::<BTreeSet<_>>().len() == prefixes.len();
+                    if well_formed {
+                        for k in children {
+                            let e = objects.iter().find(|e| e.loc == KEYS[k as usize]).cloned();
+                            self.push(client, inv, ret, MOp::Observe { key: k }, MRes::Obs(e));
+                        }
+                        for q in cands {
+                            let listed = prefixes.contains(&q);
+                            self.push(client, inv, ret, MOp::ObservePrefix { q }, MRes::PrefixListed(listed));
+                        }
+                        return;
+                    }
+                }
                 self.push(client, inv, ret, MOp::ListDelim { prefix: p }, res);
             }
             GOp::Delete { key } => {
@@ -1466,6 +1509,7 @@ impl H {
                         MOp::List { .. } => "list",
                         MOp::ListDelim { .. } => "list-delim",
                         MOp::Observe { .. } => "list-entry",
+                        MOp::ObservePrefix { .. } => "list-prefix",
                         MOp::Delete { .. } => "delete",
                         MOp::Copy { .. } | MOp::CopyRead { .. } | MOp::CopyCommit { .. } => "copy",
                         MOp::Rename { .. } => "rename",
